@@ -307,6 +307,9 @@ def run(eng, run):
     run.attempt(c01.check_json_close, eng, run, rule="C02.err")
     run.attempt(c01.check_esc, eng, RuleAlias(run, "C02.scan"))  # a mis-read escape ends a string early: a valid frame becomes an error and the next ones are swallowed
     from rules import c07
+    run.attempt(c07.check_early, eng, RuleAlias(run, "C02.lim"))  # what is measured against the limit is the frame, not whatever is buffered behind it
+    from rules import c15 as _c15
+    run.attempt(_c15.check_receivers, eng, RuleAlias(run, "C02.keep"))  # a request parsed out of buffered data is not lost to a timeout on one path only
     run.attempt(c07.check_fixed, eng, RuleAlias(run, "C02.lim"))  # the buffered path's limit is the buffer's length: both paths must enforce the configured one
     run.attempt(c10.check_conservation, eng, run, rule="C02.bound")
     run.attempt(c10.check_raw_buffer_reads, eng, run, rule="C02.bound")
